@@ -204,7 +204,11 @@ class AutoRestartTrick(Trick):
                 events_callback=lambda events: self._restart_process(),
             )
             self.event_debouncer.start()
-        self._start_process()
+        # The observer may be running already: an event handled before or while we get here
+        # has started the process, and a second one must not be started next to it.
+        with self._restart_lock:
+            if self.process is None:
+                self._start_process()
 
     def stop(self) -> None:
         # Ensure the body of the function is only run once.
